@@ -10,19 +10,23 @@ import numpy as np
 import vlib
 from harness.speccommon import *
 
-LEVEL_TEXT = ('Lean 4 theorems about an executable list model of Spectrum: the invariant (strictly increasing wavelengths, one value per '
-              'wavelength) is preserved by crop/trim/pad/append/resample and by every history of them, also when an operation is '
-              'refused; crop keeps exactly the closed range and is covariant under a change of wavelength unit (crop_scale_covariant: no absolute tolerance can enter); trim keeps first-to-last sample above tolerance; retained samples are '
-              'unaltered; trapezoid integration is linear, additive at a sample and exact on linear data; bins: one per centre, '
-              'non-negative (trapezoid), power-preserving normalisation. The model is tied to the code by per-step differential testing.')
-LEVEL_NOTE = ('partial: Simpson-rule clauses (positivity/exactness of Simpson bins on uniform grids, scipy.integrate.simpson) and '
-              'exactness of trapezoid bins for spectra linear across each bin are checked numerically by the oracle only. '
-              'Trusted: '
-              'scipy interp1d(kind=linear) = piecewise-linear interpolant with fill; np.linspace, np.delete, np.trapz as modelled.')
+LEVEL_TEXT = ('Lean 4 theorems about an executable list model of Spectrum whose comparison operators and scalar formulas (crop guards and drop '
+              'tests, integrate\'s keep test, trim\'s tolerance test and refusal, pad\'s sample counts, bin mid-points/end edges and the '
+              'trapezoid/Simpson terms) are regenerated from radiometry.py (Gen/SpectrumOps.lean): the invariant (strictly increasing wavelengths, '
+              'one value per wavelength) is preserved by crop/trim/pad/append/resample and by every history, also when an operation is refused; '
+              'crop keeps exactly the closed range and is covariant under a change of unit (crop_scale_covariant); trim keeps first-to-last '
+              'sample above tolerance; retained samples are unaltered; `integrate s a b` is linear in the values and additive at a sample '
+              '(integrate_linear, integrate_additive_at_sample), the trapezoid sum is exact on globally linear data; trapezoid binning returns one '
+              'bin per centre and, with power preservation, sums to integrate over the centres\' span.')
+LEVEL_NOTE = ('partial: non-negativity of bins is proved for the chained rule on non-negative samples over increasing edges only '
+              '(bin_trapz_nonneg_partial: that the interpolant of a non-negative spectrum is non-negative and that edges of increasing centres '
+              'increase is oracle-only); exactness of trapezoid bins for spectra linear across each bin, exactness for piecewise-linear data, the '
+              'Simpson bin count and every Simpson/scipy.integrate.simpson clause are oracle-only. Open known finding KF-C15-bin-integer-centres. '
+              'Trusted: scipy interp1d(kind=linear) = piecewise-linear interpolant with fill; np.linspace, np.delete, np.trapz as modelled.')
 TECHNIQUE = 'Lean 4 proof (induction over lists and over operation histories) about a hand model + per-step differential correspondence at ℚ'
-GEN = []
+GEN = ['SpectrumOps']
 OPS = ['C15']
-RULE = ('histories of 5..12 (quick) / 5..30 (thorough) operations drawn from crop/trim/pad/append/resample with parameters relative to the '
+RULE = ('streams: histories, integrate, bin (own/other/default unit, integer-dtype centres int16/32/64 up to the top of the range), unit (sample/resample across units), extremes (number scales, histories > 32 ops in search/thorough). histories of 5..12 (quick) / 5..30 (thorough) operations drawn from crop/trim/pad/append/resample with parameters relative to the '
         'current range (inside, at, and outside it; refusals included: non-increasing grids, overlapping appends, wrong lengths, '
         'non-positive pads, tol>=1) on dyadic spectra of 2..10 samples (one in five stored as int64); integrate with random bounds, linear/additive/exactness probes; '
         'bin with 2..7 centres (uniform and non-uniform), trapz/simps, symmetric/inside, preserve_power on/off, scalar and pair '
@@ -31,7 +35,10 @@ RULE = ('histories of 5..12 (quick) / 5..30 (thorough) operations drawn from cro
 TRUSTED = ['scipy.interpolate.interp1d(kind="linear", bounds_error=False, fill_value=…) is the piecewise-linear interpolant with fill',
            'np.linspace(a,b,n)[i] = a + i(b-a)/(n-1); np.delete/np.where/np.append/np.hstack semantics; np.trapz',
            'scipy.integrate.simpson (used by integrate(method="simps") and by preserve_power with simps) is taken from the implementation']
-UNPROVEN = ['Simpson binning with integer-dtype centres (open known finding KF-C15-bin-integer-centres: mid-points truncated)',
+UNPROVEN = ['non-negativity of `bin` itself (interpolant of a non-negative spectrum, monotone edges) — only the chained rule on free lists is proved',
+            'Simpson bin count (one bin per centre) — proved for the trapezoid rule only',
+            'exactness of integration for piecewise-linear (not globally linear) data',
+            'Simpson binning with integer-dtype centres (open known finding KF-C15-bin-integer-centres: mid-points truncated)',
             'Simpson bins: positivity of the weights and exactness for linear spectra on uniform centres (oracle only)',
             'trapezoid bins are exact for spectra linear across each bin (oracle only; the theorem proved is exactness of the trapezoid '
             'integral on linear data)',
@@ -39,7 +46,7 @@ UNPROVEN = ['Simpson binning with integer-dtype centres (open known finding KF-C
             'non-negativity of Simpson bins under preserve_power (scipy.integrate.simpson can be negative on non-uniform data)']
 ASSUMPTIONS = ['preserve_power divides by the sum of the un-normalised bins: when that sum is zero (e.g. all centres outside the data with fill 0) the code returns nan/inf; such calls are counted (tag bin:non-finite) and only checked for agreement with the model\'s zero raw sum',
                'bin(interp_method="simps", preserve_power=True) raises ValueError (from scipy.integrate.simpson) when no data sample lies inside the span of the centres; such calls are outside the modelled scope',
-               'spectra are 1-D with finite float64 data; operations are applied in the spectrum\'s own wavelength unit',
+               'spectra are 1-D with finite data; histories run in nm (also at x2^-30 and x2^10 number scales); sample, resample and bin are also run with abscissae in another unit or the default nm (the code converts a copy)',
                'histories continue after a refusal with the object as the refused call left it']
 
 OPK = ['crop', 'trim', 'pad', 'append', 'resample']
